@@ -804,6 +804,8 @@ class Interp:
         items = [self.ev(e, env) for e in n.elts]
         if not items or any(not isinstance(x, (VInt, VStr, VBool, VUn)) for x in items):
             raise Unsupported("set literal")
+        if all(isinstance(e, ast.Constant) for e in n.elts) and len({type(e.value) for e in n.elts}) > 1:
+            return VPyConstSet(items)          # mixed-type constants: python-level set (membership only)
         kt = self.join_types([typeof(x) for x in items])
         dom = z3.K(kt.sort(), z3.BoolVal(False))
         for x in items:
